@@ -1390,3 +1390,187 @@ Proof.
     destruct p as [ptop|]; [|inversion H; subst; assumption].
     apply bind_ok in H as ([c2 s2] & H2 & H). apply end_capture_outer in H2. apply IH in H. cbn in H. lia.
 Qed.
+
+(* ------------------------------------------------------------------------------------ *)
+(* 11. the record of extended templates (cycle detection) survives whatever a template does at
+       its top level: bodies, includes, imports and macros leave it as it was, so one lap through
+       a member of the chain adds exactly its parent                                          *)
+(* ------------------------------------------------------------------------------------ *)
+Lemma emit_loaded t s s' : emit t s = Ok s' -> loaded s' = loaded s.
+Proof. unfold emit. destruct (outs s) as [|[buf|] r]; intros H; inversion H; reflexivity. Qed.
+Lemma set_var_loaded x v s s' : set_var x v s = Ok s' -> loaded s' = loaded s.
+Proof. unfold set_var. destruct (store x v (vars s)); intros H; inversion H; reflexivity. Qed.
+Lemma push_frame_loaded lim f s s' : push_frame lim f s = Ok s' -> loaded s' = loaded s.
+Proof. unfold push_frame. destruct (depth_ok _ _ _); intros H; inversion H; reflexivity. Qed.
+Lemma pop_frame_loaded s s' : pop_frame s = Ok s' -> loaded s' = loaded s.
+Proof. unfold pop_frame. destruct (frames (vars s)); intros H; inversion H; reflexivity. Qed.
+Lemma end_capture_loaded s c s' : end_capture s = Ok (c, s') -> loaded s' = loaded s.
+Proof. unfold end_capture. destruct (outs s) as [|c0 [|c1 r]]; intros H; inversion H; reflexivity. Qed.
+Lemma store_all_loaded l : forall s s', store_all l s = Ok s' -> loaded s' = loaded s.
+Proof.
+  induction l as [|[x v] l IH]; cbn; intros s s' H; [inversion H; reflexivity|].
+  apply bind_ok in H as (a & H1 & H2). rewrite (IH _ _ H2). eapply set_var_loaded; eassumption.
+Qed.
+
+(* an include (and so an import): on return the block table and the record are the includer's *)
+Lemma include_keeps_record_proof Q lim E call cur es ign s s' :
+  perform_include Q lim E call cur es ign s = Ok s' -> loaded s' = loaded s /\ blocks s' = blocks s.
+Proof.
+  unfold perform_include. intros H. apply bind_ok in H as ([top|] & _ & H).
+  - destruct (depth_ok _ _ _); [|discriminate].
+    destruct (call _ _) as [s2|c| |]; cbn [wrap_err] in H; try discriminate. inversion H; subst. split; reflexivity.
+  - destruct es; [inversion H; split; reflexivity|]. destruct ign; [inversion H; split; reflexivity|discriminate].
+Qed.
+
+Section Record.
+Variable Q : quirks.
+Variable lim : option Z.
+Variable E : env.
+Variable call : task -> ist -> outcome ist.
+(* bodies (blocks, loops, macros) leave the record alone; included templates may do what they want *)
+Hypothesis HCr : forall cur its s s', call (TBody cur its) s = Ok s' -> loaded s' = loaded s.
+
+Lemma call_block_loaded b s s' : call_block Q lim call b s = Ok s' -> loaded s' = loaded s.
+Proof.
+  unfold call_block. destruct (assoc b (blocks s)) as [bs|]; [|discriminate].
+  destruct (nth_error (defs bs) (depth bs)) as [[req _]|]; [|discriminate].
+  destruct (_ && _)%bool; [discriminate|].
+  destruct (nth_error (defs bs) _) as [[_ body]|]; [|discriminate].
+  intros H. apply bind_ok in H as (s1 & H1 & H). apply bind_ok in H as (s2 & H2 & H).
+  inversion H; subst; clear H. apply push_frame_loaded in H1. apply HCr in H2. cbn in *. congruence.
+Qed.
+
+Lemma perform_super_loaded cur s s' : perform_super lim call cur s = Ok s' -> loaded s' = loaded s.
+Proof.
+  unfold perform_super. destruct cur as [b|]; [|discriminate].
+  destruct (assoc b (blocks s)) as [bs|]; [|discriminate].
+  destruct (_ <? _)%nat; [|discriminate].
+  destruct (nth_error (defs bs) _) as [[_ body]|]; [|discriminate].
+  intros H. apply bind_ok in H as (s1 & H1 & H). apply push_frame_loaded in H1.
+  destruct (call _ _) as [s2|c| |] eqn:Ec; cbn [wrap_err] in H; try discriminate.
+  apply HCr in Ec. apply bind_ok in H as (s3 & H3 & H). inversion H; subst; clear H.
+  apply pop_frame_loaded in H3. cbn in *. congruence.
+Qed.
+
+Lemma call_value_loaded o arg s s' : call_value lim call o arg s = Ok s' -> loaded s' = loaded s.
+Proof.
+  unfold call_value. destruct o as [[| |body|]|]; try discriminate.
+  unfold call_macro. destruct (_ && _)%bool; [|discriminate].
+  intros H. apply bind_ok in H as (s2 & _ & H). destruct (outs s2) as [|[cap|] [|? ?]]; try discriminate.
+  eapply emit_loaded; eassumption.
+Qed.
+
+Lemma for_loop_loaded cur body : forall todo idx s s', for_loop call cur body todo idx s = Ok s' -> loaded s' = loaded s.
+Proof.
+  induction todo as [|t IH]; cbn; intros idx s s' H; [inversion H; reflexivity|].
+  destruct (frames (vars s)); [discriminate|]. apply bind_ok in H as (a & H1 & H2).
+  apply IH in H2. apply HCr in H1. cbn in H1. congruence.
+Qed.
+
+(* a statement that is not an extends tag which gets executed: parent and record unchanged *)
+Lemma istep_record lvl0 cur it par s p s' : is_head it = false ->
+  istep Q lim E call lvl0 cur it par s = Ok (p, s') -> p = par /\ loaded s' = loaded s.
+Proof.
+  intros Hh. assert (Hk : forall o, keep par o = Ok (p, s') -> p = par /\ o = Ok s').
+  { intros o. unfold keep. destruct o; cbn; intros H; inversion H; auto. }
+  destruct it; try discriminate; cbn [istep]; intros H; apply Hk in H as [-> H]; (split; [reflexivity|]).
+  - eapply emit_loaded; eassumption.
+  - apply bind_ok in H as (t & _ & H). eapply emit_loaded; eassumption.
+  - eapply set_var_loaded; eassumption.
+  - destruct (truthy _); [eapply HCr; eassumption|inversion H; reflexivity].
+  - apply bind_ok in H as (s1 & H1 & H). apply bind_ok in H as (s2 & H2 & H).
+    apply push_frame_loaded in H1. apply for_loop_loaded in H2. apply pop_frame_loaded in H. congruence.
+  - destruct par; [inversion H; reflexivity|].
+    destruct (is_discarding s); [inversion H; reflexivity|eapply call_block_loaded; eassumption].
+  - eapply perform_super_loaded; eassumption.
+  - destruct par; [inversion H; reflexivity|].
+    destruct (is_discarding s); [inversion H; reflexivity|eapply call_block_loaded; eassumption].
+  - eapply include_keeps_record_proof; eassumption.
+  - eapply set_var_loaded; eassumption.
+  - destruct (lookup f (vars s)); [eapply call_value_loaded; eassumption|discriminate].
+  - apply bind_ok in H as (s1 & H1 & H). apply bind_ok in H as (s2 & H2 & H).
+    apply bind_ok in H as ([c3 s3] & H3 & H). apply bind_ok in H as (ex & _ & H). apply bind_ok in H as (s4 & H4 & H).
+    apply push_frame_loaded in H1. apply include_keeps_record_proof in H2 as [H2 _]. apply end_capture_loaded in H3.
+    apply pop_frame_loaded in H4. apply set_var_loaded in H. cbn in H1. congruence.
+  - apply bind_ok in H as (s1 & H1 & H). apply bind_ok in H as (s2 & H2 & H).
+    apply bind_ok in H as (s3 & H3 & H). apply bind_ok in H as (s4 & H4 & H). apply bind_ok in H as ([c5 s5] & H5 & H).
+    inversion H; subst; clear H.
+    apply push_frame_loaded in H1. apply include_keeps_record_proof in H2 as [H2 _]. apply pop_frame_loaded in H3.
+    apply store_all_loaded in H4. apply end_capture_loaded in H5. cbn in H1. congruence.
+  - destruct (lookup m (vars s)) as [[| | |kvs]|]; try discriminate; try (inversion H; reflexivity).
+    apply bind_ok in H as (t & _ & H). eapply emit_loaded; eassumption.
+  - destruct (lookup m (vars s)) as [[| | |kvs]|]; try discriminate.
+    destruct (assoc f kvs); [eapply call_value_loaded; eassumption|discriminate].
+  - destruct (lookup m (vars s)) as [[| | |kvs]|]; try discriminate.
+    + apply bind_ok in H as (s1 & _ & H). inversion H; reflexivity.
+    + apply bind_ok in H as (s1 & _ & H). eapply emit_loaded; eassumption.
+    + apply bind_ok in H as (s1 & _ & H). inversion H; reflexivity.
+Qed.
+
+(* an extends tag that gets executed while a parent is already stashed is an error; one that is not
+   executed (false condition) changes nothing *)
+Lemma istep_head_some lvl0 cur it ptop s p s' : is_head it = true ->
+  istep Q lim E call lvl0 cur it (Some ptop) s = Ok (p, s') -> p = Some ptop /\ s' = s.
+Proof.
+  destruct it; try discriminate; intros _; cbn [istep]; destruct lvl0; try discriminate.
+  destruct (truthy _); [discriminate|]. intros H; inversion H; auto.
+Qed.
+
+(* once a template has extended, the rest of its top level - whatever statements - keeps the stashed
+   parent and the record *)
+Lemma ilist_record_some lvl0 cur ptop : forall its s p s',
+  ilist Q lim E call lvl0 cur its (Some ptop) s = Ok (p, s') -> p = Some ptop /\ loaded s' = loaded s.
+Proof.
+  induction its as [|it r IH]; cbn [ilist]; intros s p s' H; [inversion H; auto|].
+  apply bind_ok in H as ([p1 s1] & H1 & H2). cbn [fst snd] in H2.
+  destruct (is_head it) eqn:Eh.
+  - apply istep_head_some in H1 as [-> ->]; [|assumption]. eapply IH; eassumption.
+  - apply istep_record in H1 as [-> H1]; [|assumption]. apply IH in H2 as [-> H2]. split; [reflexivity|congruence].
+Qed.
+End Record.
+
+Lemma body_keeps_record_proof Q lim E : forall f cur its s s',
+  icall Q lim E f (TBody cur its) s = Ok s' -> loaded s' = loaded s.
+Proof.
+  induction f as [|f IH]; intros cur its s s' H; cbn [icall] in H; [discriminate|].
+  apply bind_ok in H as ([p s1] & H1 & H). cbn [snd] in H.
+  assert (Hl : loaded s1 = loaded s).
+  { clear H. remember (@None (list item)) as par0 eqn:Ep0. clear Ep0. revert s p s1 par0 H1.
+    induction its as [|it r IHl]; cbn [ilist]; intros s p s1 par0 H1; [inversion H1; reflexivity|].
+    apply bind_ok in H1 as ([p1 s2] & Hs & Hr). cbn [fst snd] in Hr.
+    destruct (is_head it) eqn:Eh.
+    - destruct it; try discriminate; cbn [istep] in Hs; discriminate.
+    - apply (istep_record Q lim E _ IH) in Hs as [-> Hs]; [|assumption]. apply IHl in Hr. congruence. }
+  inversion H; subst. exact Hl.
+Qed.
+
+(* one lap: a template that starts with {% extends "p" %} (p exists, not yet extended) and then does
+   anything at all at its top level ends that top level with p's body stashed as parent and with
+   exactly p added to the record *)
+Lemma lap_records_parent_proof Q lim E f cur p ptop rest s par' s' :
+  find_tmpl E p = Ok (Some ptop) -> memZ p (loaded s) = false ->
+  ilist Q lim E (icall Q lim E f) true cur (IExtends (NLit p) :: rest) None s = Ok (par', s') ->
+  par' = Some ptop /\ loaded s' = loaded s ++ [p].
+Proof.
+  intros Hp Hm H. cbn [ilist istep load_blocks eval_name bind] in H. rewrite Hm, Hp in H. cbn [bind fst snd] in H.
+  apply (ilist_record_some Q lim E _ (body_keeps_record_proof Q lim E f)) in H as [-> H]. split; [reflexivity|exact H].
+Qed.
+
+(* a chain in which every template extends an existing template never renders successfully -
+   whatever else the templates do at their top level (includes, imports, macros, loops), for every
+   variant of the code, with or without recursion limit, for every fuel *)
+Definition all_extend (E : env) : Prop :=
+  forall n top, find_tmpl E n = Ok (Some top) -> exists p r, top = IExtends (NLit p) :: r.
+
+Lemma cycle_never_ok_general_proof Q lim E : all_extend E -> forall f cur top s p r,
+  top = IExtends (NLit p) :: r -> forall s', icall Q lim E f (TTemplate cur top) s <> Ok s'.
+Proof.
+  intros Ha. induction f as [|f IH]; intros cur top s p r -> s' H; cbn [icall] in H; [discriminate|].
+  apply bind_ok in H as ([par s1] & H1 & H). cbn [fst snd] in H.
+  cbn [ilist istep load_blocks eval_name bind] in H1.
+  destruct (memZ p (loaded s)); [discriminate|].
+  destruct (find_tmpl E p) as [[ptop|]| | |] eqn:Ep; cbn [bind] in H1; try discriminate. cbn [fst snd] in H1.
+  apply (ilist_record_some Q lim E _ (body_keeps_record_proof Q lim E f)) in H1 as [-> _].
+  apply bind_ok in H as ([c2 s2] & _ & H). cbn [snd] in H.
+  destruct (Ha _ _ Ep) as (p2 & r2 & ->). eapply IH; [reflexivity|eassumption].
+Qed.
